@@ -110,28 +110,50 @@ def ordinal_naming(chk, c, rule):
         if counter is None:
             raise AnalysisError('%s: enumerate target not recognised' % fq)
         nnames = 0
-        for n in ast.walk(lp):
-            # canonical form of '<prefix>_{i}'.format(..) / '%s_%d' % (..): f'{prefix}_{i}' -- last field after a '_' literal
-            if isinstance(n, ast.JoinedStr) and len(n.values) >= 2 and isinstance(n.values[-1], ast.FormattedValue) and \
-                    isinstance(n.values[-2], ast.Constant) and str(n.values[-2].value).endswith('_'):
-                idx = n.values[-1].value
-                add = None
-                if isinstance(idx, ast.Name) and idx.id == counter:
-                    add = 0
-                elif isinstance(idx, ast.BinOp) and isinstance(idx.op, ast.Add) and isinstance(idx.left, ast.Name) and \
-                        idx.left.id == counter and isinstance(idx.right, ast.Constant):
-                    add = idx.right.value
-                elif isinstance(idx, ast.BinOp) and isinstance(idx.op, ast.Add) and isinstance(idx.right, ast.Name) and \
-                        idx.right.id == counter and isinstance(idx.left, ast.Constant):
-                    add = idx.left.value
-                elif counter not in {x.id for x in ast.walk(idx) if isinstance(x, ast.Name)}:
-                    continue          # a name built from something else than the loop counter
-                nnames += 1
-                ok = add is not None and start + add == 1
-                chk.ob(rule, '%s: `%s`' % (fq, norm(n)[:60]), ok,
-                       'the piece at position i is named with index %s + %s: encode and parse disagree on every position' % (
-                           'enumerate-start %d' % start, add), '%s:%d' % (fi.module.relpath, n.lineno),
-                       key='%s|%s|%s' % (rule, fq, ''.join(v.value if isinstance(v, ast.Constant) else '{}' for v in n.values)))
+
+        def offset_of(idx, counter):
+            """idx is `counter` (+ constant) -> the constant; None when it involves the counter otherwise; 'other' when it does
+            not involve the counter at all"""
+            if isinstance(idx, ast.Name) and idx.id == counter:
+                return 0
+            if isinstance(idx, ast.BinOp) and isinstance(idx.op, ast.Add):
+                if isinstance(idx.left, ast.Name) and idx.left.id == counter and isinstance(idx.right, ast.Constant):
+                    return idx.right.value
+                if isinstance(idx.right, ast.Name) and idx.right.id == counter and isinstance(idx.left, ast.Constant):
+                    return idx.left.value
+            if counter not in {x.id for x in ast.walk(idx) if isinstance(x, ast.Name)}:
+                return 'other'
+            return None
+
+        def scan(root, counter, base, where, depth):
+            nonlocal nnames
+            for n in ast.walk(root):
+                # canonical form of '<prefix>_{i}'.format(..) / '%s_%d' % (..): f'{prefix}_{i}' -- last field after a '_' literal
+                if isinstance(n, ast.JoinedStr) and len(n.values) >= 2 and isinstance(n.values[-1], ast.FormattedValue) and \
+                        isinstance(n.values[-2], ast.Constant) and str(n.values[-2].value).endswith('_'):
+                    add = offset_of(n.values[-1].value, counter)
+                    if add == 'other':
+                        continue          # a name built from something else than the loop counter
+                    nnames += 1
+                    ok = add is not None and base is not None and start + base + add == 1
+                    chk.ob(rule, '%s: `%s`' % (fq, norm(n)[:60]), ok,
+                           'the piece at position i is named with index %s + %s: encode and parse disagree on every position' % (
+                               'enumerate-start %d' % start, add if base in (0, None) else '%s + %s' % (base, add)),
+                           '%s:%d' % (where.module.relpath, n.lineno),
+                           key='%s|%s|%s' % (rule, fq, ''.join(v.value if isinstance(v, ast.Constant) else '{}' for v in n.values)))
+                # the counter handed to a helper of the same module that builds the name
+                if isinstance(n, ast.Call) and isinstance(n.func, ast.Name) and depth < 2:
+                    callee = where.module.functions.get(n.func.id)
+                    if callee is None or callee.cls is not None:
+                        continue
+                    params = [a.arg for a in callee.node.args.args]
+                    bound = list(zip(params, n.args)) + [(k.arg, k.value) for k in n.keywords if k.arg]
+                    for pname, a in bound:
+                        off = offset_of(a, counter)
+                        if off == 'other':
+                            continue
+                        scan(callee.node, pname, (base + off) if (off is not None and base is not None) else None, callee, depth + 1)
+        scan(lp, counter, 0, fi, 0)
         if nnames == 0:
             raise AnalysisError('%s: no positional name construction found' % fq)
 
@@ -1132,3 +1154,99 @@ def case_measure(chk, c, rule):
                    'are off (int() of the wrong slice: ValueError)' % (norm(bad[0])[:40] if bad else '', v, norm(cased[v][0])[:40]),
                    '%s:%d' % (fi.module.relpath, (bad[0] if bad else ms[0]).lineno), key='%s|%s|%s' % (rule, fq, v))
     chk.floor('functions that case-normalise a name', n, 8)
+
+
+def z_name_alphabets(chk, c, rule):
+    """Sibling predicates: `_valid_z_segment_name` admits every three-character name that starts with Z; the field-name and
+    message-name predicates decide, by regular expression, which names *below / above* such a segment are Z names.  Rule: the
+    character class that stands for the two free characters of the segment name admits every letter and every digit in each
+    of the regular expressions (and the classes agree): otherwise a Z segment that the parser and STRICT construction accept
+    (e.g. `Z01`) has fields that are not Z fields -- `validate()` reports them as invalid, `Field('Z01_1')` is refused --
+    while `ZA1` works.  The regular expressions are constants of the functions; their syntax trees are inspected."""
+    import ast
+    import string
+    try:
+        import re._parser as sre_parse      # py >= 3.11
+    except ImportError:                     # pragma: no cover
+        import sre_parse
+    from ..src import own_nodes, norm
+    from . import pat
+    ix = c.index
+    seg = ix.func('core._valid_z_segment_name')
+    if seg is None:
+        raise AnalysisError('core._valid_z_segment_name not found')
+    txt = ' '.join(norm(x) for x in own_nodes(seg.node) if isinstance(x, (ast.Return, ast.Assign)))
+    if "startswith('Z')" not in txt or '== 3' not in txt or 're.' in txt:
+        raise AnalysisError('core._valid_z_segment_name: not the prefix + length form (%s)' % txt[:80])
+    need = set(string.ascii_uppercase + string.digits)
+    classes = {}
+    for fname in ('_valid_z_field_name', '_valid_z_message_name'):
+        fi = ix.func('core.' + fname)
+        if fi is None:
+            raise AnalysisError('core.%s not found' % fname)
+        calls = [x for x in own_nodes(fi.node) if isinstance(x, ast.Call) and isinstance(x.func, ast.Attribute) and
+                 x.func.attr in ('match', 'fullmatch', 'search', 'compile') and norm(x.func.value) == 're' and x.args]
+        if len(calls) != 1:
+            raise AnalysisError('core.%s: expected one re.match call, found %d' % (fname, len(calls)))
+        call = calls[0]
+        patnode = pat.inline_locals(call.args[0], fi.node)
+        if not (isinstance(patnode, ast.Constant) and isinstance(patnode.value, str)):
+            raise AnalysisError('core.%s: the pattern is not a constant (%s)' % (fname, norm(call.args[0])[:40]))
+        icase = any('IGNORECASE' in norm(a) or norm(a) == 're.I' for a in list(call.args[1:]) + [k.value for k in call.keywords]) or \
+            '(?i)' in patnode.value
+        tree = sre_parse.parse(patnode.value)
+        items = list(tree)
+        found = []
+        for i, (op, av) in enumerate(items):
+            if str(op) == 'LITERAL' and chr(av) in 'zZ' and i + 1 < len(items):
+                op2, av2 = items[i + 1]
+                if str(op2) in ('MAX_REPEAT', 'MIN_REPEAT'):
+                    lo, hi, sub = av2
+                    sub = list(sub)
+                    if lo == hi == 2 and len(sub) == 1:
+                        found.append(sub[0])
+        if not found:
+            raise AnalysisError('core.%s: no `z<class>{2}` part recognised in %r' % (fname, patnode.value))
+        for k, (op, av) in enumerate(found):
+            chars = set()
+            if str(op) == 'IN':
+                neg = False
+                for o, a in av:
+                    if str(o) == 'NEGATE':
+                        neg = True
+                    elif str(o) == 'RANGE':
+                        chars |= {chr(x) for x in range(a[0], a[1] + 1)}
+                    elif str(o) == 'LITERAL':
+                        chars.add(chr(a))
+                    elif str(o) == 'CATEGORY':
+                        cat = str(a)
+                        if cat.endswith('CATEGORY_WORD'):
+                            chars |= set(string.ascii_letters + string.digits + '_')
+                        elif cat.endswith('CATEGORY_DIGIT'):
+                            chars |= set(string.digits)
+                        else:
+                            raise AnalysisError('core.%s: category %s in the class' % (fname, cat))
+                if neg:
+                    chars = {chr(x) for x in range(32, 127)} - chars
+            elif str(op) == 'ANY':
+                chars = {chr(x) for x in range(32, 127)}
+            elif str(op) == 'LITERAL':
+                chars = {chr(av)}
+            else:
+                raise AnalysisError('core.%s: class form %s not recognised' % (fname, op))
+            subject = norm(call.args[1]) if len(call.args) > 1 and call.func.attr != 'compile' else ''
+            if icase:
+                chars |= {ch.upper() for ch in chars} | {ch.lower() for ch in chars}
+            elif subject.endswith('.lower()'):
+                chars = {ch.upper() for ch in chars if ch.islower() or not ch.isalpha()}
+            elif subject.endswith('.upper()'):
+                chars = {ch for ch in chars if ch.isupper() or not ch.isalpha()}
+            classes[(fname, k)] = chars
+            miss = sorted(need - chars)
+            chk.ob(rule, 'core.%s: the segment-name class (#%d) of %r admits every letter and digit' % (fname, k + 1, patnode.value),
+                   not miss,
+                   'characters %s are not admitted: a Z segment named with one of them (e.g. `Z%s1`) is accepted by '
+                   '_valid_z_segment_name, the parser and STRICT construction, but its fields / message are not Z elements: '
+                   'validate() reports `Invalid element found` for a message STRICT accepted' % (''.join(miss), miss[0] if miss else ''),
+                   '%s:%d' % (fi.module.relpath, call.lineno), key='%s|%s|%d|%s' % (rule, fname, k, ''.join(miss)))
+    chk.floor('segment-name classes of the Z-name expressions', len(classes), 3)
